@@ -2143,6 +2143,8 @@ MALFORMED = [
     "setoption name Hash value -1", "setoption name Hash value -100000", "setoption name Hash value abc", "setoption name Hash value",
     "position startpos moves " + " ".join(["g1f3", "g8f6", "f3g1", "f6g8"] * 130),      # 520 half moves: more than the position can hold
     "position startpos moves " + " ".join(["b1c3", "b8c6", "c3b1", "c6b8"] * 400),
+    "position startpos moves e2e4 moves e7e5", "position startpos moves e2e4q", "position startpos moves 0000", "position startpos moves e7e8q",
+    "go depth 99999999999999999999 x", "setoption name Hash value 1.5", "setoption name Hash value 99999999999999999999",
     "xyz", "   ", "\t", "quit2", "u c i", "\u2654\u2655 e2e4", "go" + " x" * 2000, "position " + "9" * 3000, "=" * 20000,
 ]
 
@@ -2197,7 +2199,8 @@ def check_C16(tier):
         for g in ["go depth 2 searchmoves %s %s" % (a_, a_), "go searchmoves %s %s %s depth 2" % (a_, b_, a_), "go depth 1 depth 2",
                   "go movetime 30 movetime 40", "go wtime 100 btime 100 winc 0 binc 0 movestogo 1", "go nodes 1", "go depth 2 nodes 100 movetime 50",
                   "go wtime 1 btime 1", "go depth 2 searchmoves " + " ".join(fenspec.mv_uci(m_) for m_ in n["legal"]),
-                  "go mate 1 depth 2", "go depth 200 nodes 50", "go wtime 50 btime 50 winc 100000 binc 100000"]:
+                  "go mate 1 depth 2", "go depth 200 nodes 50", "go wtime 50 btime 50 winc 100000 binc 100000",
+                  "go nodes 1 depth 0", "go depth 1 movestogo 0 wtime 1000 btime 1000"]:
             steps = [S("uci"), ul.wait("uciok", 3000), S(cmd), ul.sync(), S(g), ul.wait("bestmove", 8000), ul.sync(),
                      S("go depth 1"), ul.wait("bestmove", 8000)]
             sid = len(scripts) + 1
